@@ -688,7 +688,13 @@ impl Tbl {
             t.temporary();
         }
         for c in &self.cols {
-            t.col(c.column_def());
+            // a column definition is handed over by value or taken out of a builder reference
+            let mut cd = c.column_def();
+            if crate::apply::route(2) == 0 {
+                t.col(&mut cd);
+            } else {
+                t.col(cd);
+            }
         }
         // primary_key() / index() take the declaration out of the builder they are given, so one builder can
         // declare several indexes in turn (as long as nothing of an earlier one stays behind on it)
